@@ -8,51 +8,51 @@ ASTRO_TB = "modelled, not verified: ShouXingUtil (new-moon / solar-term series, 
 STD_TB = "Go standard library behaviour (fmt.Sprintf, strings.Compare/Index/Replace, container/list, maps) modelled by documented semantics"
 
 PROPS = {
-    "C01": {"lean_target": ["Props.C01", "Props.FnC01"], "gens": ["gen-ly", "gen-lunar"], "searches": ["search-C01"],
+    "C01": {"lean_target": ["Props.C01", "Props.Purity", "Props.FnC01"], "gens": ["gen-ly", "gen-lunar"], "searches": ["search-C01"],
             "trusted_base": [ASTRO_TB, STD_TB]},
-    "C02": {"lean_target": ["Props.C02", "Props.FnC01"], "gens": ["gen-ly"], "searches": ["search-C02"],
+    "C02": {"lean_target": ["Props.C02", "Props.Purity", "Props.FnC01"], "gens": ["gen-ly"], "searches": ["search-C02"],
             "trusted_base": [ASTRO_TB, "independent Meeus new-moon / solar-longitude computation in the harness is an oracle definition (validation, not proof)"],
             "open_obligations": ["month begins on the civil day of the true new moon (1645..3000): validated against the independent ephemeris in search-C02, not a theorem",
                                  "ICU comparison: ICU is not installed; not checked"]},
-    "C03": {"lean_target": ["Props.C03"], "gens": ["gen-ly", "gen-terms"], "searches": ["search-C03"],
+    "C03": {"lean_target": ["Props.C03", "Props.Purity"], "gens": ["gen-ly", "gen-terms"], "searches": ["search-C03"],
             "trusted_base": [ASTRO_TB, STD_TB],
             "open_obligations": ["term instant = root of the apparent solar longitude: validated in search-C03 against the library's own ephemeris (hook VerifSaLon), not a theorem"]},
-    "C04": {"lean_target": ["Props.C04", "Props.FnC04"], "gens": ["gen-civil", "gen-jd"], "searches": ["search-C04"],
+    "C04": {"lean_target": ["Props.C04", "Props.Purity", "Props.FnC04"], "gens": ["gen-civil", "gen-jd"], "searches": ["search-C04"],
             "trusted_base": [FLOAT_TB]},
-    "C05": {"lean_target": ["Props.C05", "Props.FnC05"], "gens": ["gen-lunar", "gen-ec"], "searches": ["search-C05"],
+    "C05": {"lean_target": ["Props.C05", "Props.Purity", "Props.FnC05", "Props.AstroBase"], "gens": ["gen-lunar", "gen-ec"], "searches": ["search-C05"],
             "trusted_base": [ASTRO_TB, STD_TB]},
-    "C06": {"lean_target": ["Props.C06", "Props.FnC01"], "gens": ["gen-ly"], "searches": ["search-C06"],
+    "C06": {"lean_target": ["Props.C06", "Props.Purity", "Props.FnC01"], "gens": ["gen-ly"], "searches": ["search-C06"],
             "trusted_base": [ASTRO_TB]},
-    "C07": {"lean_target": ["Props.C07", "Props.FnC07"], "gens": ["gen-box", "gen-civil"], "searches": ["search-C07"],
+    "C07": {"lean_target": ["Props.C07", "Props.Purity", "Props.FnC07"], "gens": ["gen-box", "gen-civil"], "searches": ["search-C07"],
             "trusted_base": [ASTRO_TB, FLOAT_TB]},
-    "C08": {"lean_target": ["Props.C08", "Props.FnSC08"], "gens": ["gen-alm", "gen-ec", "gen-terms", "gen-week"], "searches": ["search-C08"],
+    "C08": {"lean_target": ["Props.C08", "Props.Purity", "Props.FnSC08", "Props.AstroBase"], "gens": ["gen-alm", "gen-ec", "gen-terms", "gen-week"], "searches": ["search-C08"],
             "trusted_base": [ASTRO_TB, STD_TB],
             "open_obligations": ["accessors outside the modelled set are covered by the reflection sweep of search-C08 only (counted in search_stats.methods)"]},
-    "C09": {"lean_target": ["Props.C09"], "gens": [], "searches": ["search-C09"],
+    "C09": {"lean_target": ["Props.C09", "Props.Purity"], "gens": [], "searches": ["search-C09"],
             "trusted_base": ["Go memory model and scheduler are outside the model: data races / real blocking are exercised by search-C09 (history sweeps; goroutine stress under -race), not proved",
                              "the protocol model has a crash step (compute panics): the lock is released by the deferred unlock, which the regenerated shape fact of NewLunarYear requires"]},
-    "C10": {"lean_target": ["Props.C10"], "gens": ["gen-bazi"], "searches": ["search-C10"],
+    "C10": {"lean_target": ["Props.C10", "Props.Purity", "Props.AstroBase"], "gens": ["gen-bazi"], "searches": ["search-C10"],
             "trusted_base": [ASTRO_TB, "time.Now() is a parameter (endYear) of the model"],
             "open_obligations": ["completeness fails when a Jie instant lies inside the queried two-hour slot (known finding); completeness elsewhere is checked by search-C10, not proved"]},
-    "C11": {"lean_target": ["Props.C11", "Props.C18Reads", "Props.FnSC11"], "gens": ["gen-alm", "gen-ec", "gen-terms"], "searches": ["search-C11"],
+    "C11": {"lean_target": ["Props.C11", "Props.Purity", "Props.C18Reads", "Props.FnSC11", "Props.AstroBase"], "gens": ["gen-alm", "gen-ec", "gen-terms"], "searches": ["search-C11"],
             "trusted_base": [ASTRO_TB, STD_TB]},
-    "C12": {"lean_target": ["Props.C12", "Props.FnC12"], "gens": ["gen-ec"], "searches": ["search-C12"],
+    "C12": {"lean_target": ["Props.C12", "Props.Purity", "Props.FnC12", "Props.AstroBase"], "gens": ["gen-ec"], "searches": ["search-C12"],
             "trusted_base": [ASTRO_TB]},
-    "C13": {"lean_target": ["Props.C13", "Props.FnC13"], "gens": ["gen-terms"], "searches": ["search-C13"],
+    "C13": {"lean_target": ["Props.C13", "Props.Purity", "Props.FnC13", "Props.AstroBase", "Props.FnSC13"], "gens": ["gen-terms"], "searches": ["search-C13"],
             "trusted_base": [ASTRO_TB, STD_TB]},
-    "C14": {"lean_target": ["Props.C14"], "gens": ["gen-holiday"], "searches": ["search-C14"],
+    "C14": {"lean_target": ["Props.C14", "Props.Purity"], "gens": ["gen-holiday"], "searches": ["search-C14"],
             "trusted_base": [STD_TB]},
-    "C15": {"lean_target": ["Props.C15", "Props.FnC15"], "gens": ["gen-week"], "searches": ["search-C15"],
+    "C15": {"lean_target": ["Props.C15", "Props.Purity", "Props.FnC15"], "gens": ["gen-week"], "searches": ["search-C15"],
             "trusted_base": [FLOAT_TB]},
-    "C16": {"lean_target": ["Props.C16", "Props.FnC16"], "gens": ["gen-terms", "gen-alm"], "searches": ["search-C16"],
+    "C16": {"lean_target": ["Props.C16", "Props.Purity", "Props.FnC16", "Props.AstroBase"], "gens": ["gen-terms", "gen-alm"], "searches": ["search-C16"],
             "trusted_base": [ASTRO_TB, STD_TB]},
-    "C17": {"lean_target": ["Props.C17", "Props.FnC17", "Props.FnSC17"], "gens": ["gen-alm", "gen-box"], "searches": ["search-C17"],
+    "C17": {"lean_target": ["Props.C17", "Props.Purity", "Props.FnC17", "Props.FnSC17"], "gens": ["gen-alm", "gen-box"], "searches": ["search-C17"],
             "trusted_base": [ASTRO_TB]},
-    "C18": {"lean_target": ["Props.C18", "Props.C18Reads", "Props.FnSC18"], "gens": ["gen-alm", "gen-ec"], "searches": ["search-C18"],
+    "C18": {"lean_target": ["Props.C18", "Props.Purity", "Props.C18Reads", "Props.FnSC18", "Props.AstroBase"], "gens": ["gen-alm", "gen-ec"], "searches": ["search-C18"],
             "trusted_base": [ASTRO_TB, STD_TB]},
-    "C19": {"lean_target": ["Props.C19", "Props.FnSC19"], "gens": ["gen-fmt", "gen-alm"], "searches": ["search-C19"],
+    "C19": {"lean_target": ["Props.C19", "Props.Purity", "Props.FnSC19"], "gens": ["gen-fmt", "gen-alm"], "searches": ["search-C19"],
             "trusted_base": [STD_TB]},
-    "C20": {"lean_target": ["Props.C20", "Props.FnSC20"], "gens": ["gen-sfest"], "searches": ["search-C20"],
+    "C20": {"lean_target": ["Props.C20", "Props.Purity", "Props.FnSC20"], "gens": ["gen-sfest"], "searches": ["search-C20"],
             "trusted_base": [STD_TB]},
 }
 for _p in PROPS.values():
